@@ -12,7 +12,7 @@ from props.calls import enc_all, dec_all, pretty, INT_MAX, ATOM_MAX
 PID = 'C06'
 HARNESS = 'h_c06'
 MODEL_MODULE = 'V.C06.Model'
-READY = False
+READY = True
 RULE = ('cases = call sequences init; (begin; directives; end) x 1..3 with degenerate-heavy directives (empty head x {disjunctive, choice}, '
         'empty body, empty/all-zero/equal/unequal weights, bounds <= 0, = sum, > sum, INT_MAX, empty project/assume/minimize, several names per atom, '
         'named/unnamed atoms mixed, nested theory terms with operators and all tuple kinds, guards) plus a malformed theory stream '
@@ -400,7 +400,14 @@ def step_oracle(calls, text, st):
     try:
         stmts = P(text, allt).program()
     except Bad as e:
-        return ['unparseable-output']
+        # a theory term may end in '.', which makes "<atom>." textually a prefix of another theory atom's text:
+        # retry preferring the shortest matching theory atom
+        try:
+            pp = P(text, allt)
+            pp.tn = sorted(set(allt), key=len)
+            stmts = pp.program()
+        except Bad as e2:
+            return ['unparseable-output']
     stmts = [s for s in stmts if s[0] != 'comment']
 
     def atom_ok(a, name):
